@@ -123,6 +123,11 @@ storage_set(struct Storage* self, const struct StorageProperties* settings)
     CHECK(self);
     CHECK(settings);
 
+    // Re-configuring a running device ends its current run first: the driver
+    // sees stop() for its start() (and finalizes what it was writing) before
+    // the new settings re-arm it.
+    storage_stop(self);
+
     self->state = state_after_set(self->state, self->set(self, settings));
     EXPECT(DeviceState_Armed == self->state,
            "Expected Armed. Got %s.",
